@@ -87,9 +87,13 @@ def h_timer(cfg):
     elif argmode == 'scalar':
         exp_args = [sym_int('a0')]
         given = exp_args[0]
+    elif argmode == 'tuple':
+        exp_args = [sym_int('a0'), sym_int('a1')]
+        given = tuple(exp_args)
     else:
         exp_args = []
         given = None
+    exp_kw = {'k': sym_int('kw')} if cfg.get('kwargs') else {}
 
     def call(what, tau=None):
         try:
@@ -100,7 +104,8 @@ def h_timer(cfg):
         except Exception as ex:  # noqa
             fail('c19.no-raise', '%s() raised %s: %s' % (what, type(ex).__name__, ex))
 
-    def cb(*args):
+    def cb(*args, **kw):
+        check('c19.kwargs', set(kw) == set(exp_kw) and all(eq(kw[k], v) for k, v in exp_kw.items()), sorted(kw))
         ref.in_cb = True
         try:
             if ref.nfired >= cfg.get('max_fire', 99):
@@ -126,7 +131,10 @@ def h_timer(cfg):
         yield env.timeout(num('t0', lo_strict=False))
         T = num('T')
         try:
-            box['timer'] = Timer(env, T, cb, auto_restart=auto, args=given)
+            if exp_kw:
+                box['timer'] = Timer(env, T, cb, auto_restart=auto, args=given, kwargs=dict(exp_kw))
+            else:
+                box['timer'] = Timer(env, T, cb, auto_restart=auto, args=given)
         except Exception as ex:  # noqa
             fail('c19.no-raise', 'Timer() raised %s: %s' % (type(ex).__name__, ex))
             return
@@ -185,6 +193,13 @@ def jobs(tier, seed):
                 if auto:
                     cfg['max_fire'] = 3 if tier == 'quick' else 4
                 js.append({'harness': 'timer', 'cfg': cfg, 'weight': 20 if auto else 5, 'opts': opts})
+    for auto, ctrl, cb in ((False, ['restart'], {}), (True, [], {1: 'restart', 3: 'stop'})):
+        for argmode, kw in (('tuple', False), ('list', True), ('none', True)):
+            cfg = {'auto': auto, 'ctrl': ctrl, 'cb': {str(k): v for k, v in cb.items()}, 'argmode': argmode, 'kwargs': kw,
+                   'sorts': 'int'}
+            if auto:
+                cfg['max_fire'] = 3
+            js.append({'harness': 'timer', 'cfg': cfg, 'weight': 5})
     return js
 
 
